@@ -50,7 +50,7 @@ func c19Queries() []scen.Query {
 	}
 }
 
-var c19FaultKinds = []string{"storage.Close()", "list 1 handle replaced by a closed file", "list 2 handle replaced by a closed file", "both handles replaced by closed files"}
+var c19FaultKinds = []string{"storage.Close()", "list 1 handle replaced by a closed file", "list 2 handle replaced by a closed file", "both handles replaced by closed files", "both handles replaced by handles of an empty file (every read ends at once)"}
 
 // c19Build builds engines over two file lists and one string list.
 func c19Build() (*scen.Engines, *filterlist.RuleStorage, []*filterlist.FileRuleList) {
@@ -139,6 +139,60 @@ func c19Result(e *scen.Engines, q scen.Query) (texts []string, lie string) {
 	return sortedSet(texts), lie
 }
 
+// c19LargeWorkingSet materialises n rules of one file-backed list, injects the
+// fault, and asks for every one of them again: however many rules are in
+// memory, they are all still served.
+func c19LargeWorkingSet(c *Ctx, n int) (evals int64) {
+	var sb strings.Builder
+	sb.WriteString("! large list\n")
+	for i := 0; i < n; i++ {
+		fmt.Fprintf(&sb, "0.0.0.0 h%d.big.test\n", i)
+	}
+	text := sb.String()
+	for kind := 0; kind < 2; kind++ {
+		fl, err := filterlist.NewFileRuleList(1, scen.PathFor(text), false)
+		if err != nil {
+			panic(HarnessError(err.Error()))
+		}
+		st, err := filterlist.NewRuleStorage([]filterlist.RuleList{fl})
+		if err != nil {
+			panic(HarnessError(err.Error()))
+		}
+		e := urlfilter.NewDNSEngine(st)
+		ask := func(i int) bool {
+			res, ok := e.MatchRequest(&urlfilter.DNSRequest{Hostname: fmt.Sprintf("h%d.big.test", i), DNSType: 1})
+			return ok && len(res.HostRulesV4) == 1 && res.HostRulesV4[0].RuleText == fmt.Sprintf("0.0.0.0 h%d.big.test", i)
+		}
+		for i := 0; i < n; i++ {
+			evals++
+			if !ask(i) {
+				c.Run.Violate(ev.Violation{Pred: "fault-free-answer", Sig: map[string]any{"large_list": n}, What: fmt.Sprintf("list of %d host rules: query %d not answered before any fault", n, i), Replay: map[string]any{"large": n}})
+				break
+			}
+		}
+		if kind == 0 {
+			_ = st.Close()
+		} else {
+			fl.File = closedHandle(scen.PathFor(text))
+		}
+		for i := 0; i < n; i++ {
+			evals++
+			served := false
+			if p := protect(func() { served = ask(i) }); p != nil {
+				c.Run.Violate(ev.Violation{Pred: "no-crash", Sig: map[string]any{"large_list": n}, What: fmt.Sprintf("list of %d host rules, all materialised: query %d panics after the fault: %v", n, i, p), Replay: map[string]any{"large": n}})
+				break
+			}
+			if !served {
+				c.Run.Violate(ev.Violation{Pred: "materialised-rules-still-served", Sig: map[string]any{"large_list": n},
+					What: fmt.Sprintf("list of %d host rules, all materialised by queries: after %s, rule %d of %d is no longer served", n, c19FaultKinds[kind], i, n), Replay: map[string]any{"large": n}})
+				break
+			}
+		}
+		_ = fl.File.Close()
+	}
+	return evals
+}
+
 func init() {
 	register("C19", "fault_enumeration", func(c *Ctx) {
 		scen.FileDir = os.Getenv("VERIF_WORK")
@@ -221,6 +275,14 @@ func init() {
 					case 3:
 						fls[0].File = closedHandle(scen.PathFor(c19Lists[0].Text))
 						fls[1].File = closedHandle(scen.PathFor(c19Lists[1].Text))
+					case 4:
+						for _, fl := range fls {
+							f, err := os.Open(scen.PathFor(""))
+							if err != nil {
+								panic(HarnessError(err.Error()))
+							}
+							fl.File = f // closed by the deferred loop
+						}
 					}
 				}
 				var got []string
@@ -268,6 +330,10 @@ func init() {
 			return evals
 		}
 		if c.Replay != nil {
+			if n, ok := c.Replay["large"].(float64); ok {
+				c19LargeWorkingSet(c, int(n))
+				return
+			}
 			var hist []int
 			for _, v := range c.Replay["history"].([]any) {
 				hist = append(hist, int(v.(float64)))
@@ -308,13 +374,21 @@ func init() {
 			cases += cs
 			mu.Unlock()
 		})
+		var largeEvals int64
+		largeSizes := []int{100, 1000, 5000, 20000}
+		for _, n := range largeSizes {
+			largeEvals += c19LargeWorkingSet(c, n)
+		}
+		evals += largeEvals
+		c.Run.Set("large_working_set_sizes", fmt.Sprint(largeSizes))
+		c.Run.Set("large_working_set_evaluations", largeEvals)
 		c.Run.Sample(map[string]any{"history": []string{qs[0].String(), qs[3].String(), qs[0].String()}, "fault_before_query": 1, "fault": c19FaultKinds[0]})
 		c.Run.Sample(map[string]any{"history": []string{qs[4].String(), qs[2].String()}, "fault_before_query": 0, "fault": c19FaultKinds[3]})
 		c.Run.Set("histories", int64(len(hists)))
 		c.Run.Set("fault_cases", cases)
 		c.Run.Set("evaluations", evals)
 		c.Run.Set("distinct_nontrivial", cases)
-		c.Run.Set("rule", fmt.Sprintf("every query history of length 1..%d over %d queries (network/DNS/engine, each hitting a different table or list; two file-backed lists and one string list) x every fault point 0..n x 4 fault kinds (Close, either or both file handles replaced by closed descriptors); every case is distinct; each query after the fault: no panic, every returned rule truly matches, result subset of the rules that individually match (the fault-free result plus what precedence hid), rules in memory at fault time (cache keys, sequential-table rules, string-backed rules) still served", n, len(qs)))
+		c.Run.Set("rule", fmt.Sprintf("every query history of length 1..%d over %d queries (network/DNS/engine, each hitting a different table or list; two file-backed lists and one string list) x every fault point 0..n x 5 fault kinds (Close, either or both file handles replaced by closed descriptors, both replaced by handles of an empty file); every case is distinct; each query after the fault: no panic, every returned rule truly matches, result subset of the rules that individually match (the fault-free result plus what precedence hid), rules in memory at fault time (cache keys, sequential-table rules, string-backed rules) still served", n, len(qs)))
 		c.Run.Set("exhaustive", exhaustive)
 		c.Run.Assumption("fault kinds are those reachable through the public API (RuleStorage.Close, exported FileRuleList.File); read errors in the middle of a line are not injected")
 	})
